@@ -71,7 +71,10 @@ def run(chk, ctx):
                     else:
                         other.append(f[:3])
             lows.add((lo, tuple(sorted(set(other)))))
-        chk.require(lows == {(c0 + 1, ())}, "GUARD", "GUARD:random:refused-only-when-the-range-is-empty", "a value is returned exactly for n >= %d (the range %d..n is non-empty)" % (c0 + 1, c0),
+        # every n >= 2 must yield a value (the statement's quantifier); below that a bound may be refused or served as long as the
+        # range is non-empty (an empty one is C10's panic): the smallest admitted n lies in [c+1, max(2, c+1)]
+        ok_lows = len(lows) == 1 and list(lows)[0][1] == () and list(lows)[0][0] is not None and c0 + 1 <= list(lows)[0][0] <= max(2, c0 + 1)
+        chk.require(ok_lows, "GUARD", "GUARD:random:refused-only-when-the-range-is-empty", "a value is returned for every n >= %d (the range %d..n is non-empty from %d on)" % (max(2, c0 + 1), c0, c0 + 1),
                     "random() returns a value for (smallest admitted n, other conditions) = %s, but the range %d..n is non-empty from n = %d on: some valid bound is refused (or an empty range admitted)" % (sorted(lows, key=str), c0, c0 + 1), "%s:%d" % (fb.file, fb.line))
     rb = P.body(EC + "random")
     if chk.anchor("EvalContext::random", rb):
